@@ -102,8 +102,9 @@ class TypedGen(object):
             if k < 0.55:
                 return TExpr("*", [self.gen(INT, atoms, depth - 1, nonneg), TExpr("atom", [], INT, str(r.choice([1, 2, 3])))], INT)
             if k < 0.7:
-                n = r.choice([1, 2, 2, 3])
-                return TExpr("$max", [self.gen(INT, atoms, depth - 1, nonneg) for _ in range(n)], INT)
+                # the documentation puts no limit on the number of arguments: mostly few, sometimes many
+                n = r.choice([1, 2, 2, 3, 3, 6, 9, 12])
+                return TExpr("$max", [self.gen(INT, atoms, depth - 1 if n <= 3 else 0, nonneg) for _ in range(n)], INT)
             if k < 0.88:
                 return TExpr("?:", [self.gen(BOOL, atoms, depth - 1), self.gen(INT, atoms, depth - 1, nonneg), self.gen(INT, atoms, depth - 1, nonneg)], INT)
             if k < 0.94 and not nonneg:
@@ -297,6 +298,9 @@ LINE_VIOLATIONS = [
     ("parameters-on-enum-type", "e", "  2 [+1]  Ee(1)  e"),
     ("parameters-on-unparameterised-struct", "oe", "  7 [+1]  o.Ee(a, b)  oe"),
     ("$max-without-arguments", "vi", "  let vi = $max()"),
+    ("$max-ninth-argument-boolean", "vi", "  let vi = $max(a, b, 1, 2, 3, 4, 5, 6, fl)"),
+    ("$max-tenth-argument-enum", "vi", "  let vi = $max(a, b, 1, 2, 3, 4, 5, 6, 7, e, 9)"),
+    ("$max-last-of-many-arguments-boolean", "vi", "  let vi = $max(1, 2, 3, 4, 5, 6, 7, 8, 9, 10, 11, 12, 13, 14, 15, 16, true)"),
     ("$present-without-arguments", "vb", "  let vb = $present()"),
     ("$present-two-arguments", "vb", "  let vb = $present(a, b)"),
     ("$present-of-non-field", "vb", "  let vb = $present(1 + 1)"),
